@@ -142,7 +142,10 @@ const supportExtra = `
 type Duration int64
 type MyString string
 type MyInt int32
+type SecondsDuration float64
+type MyDuration int64
 type StrCustom string
+type Under_Score string
 type BoolCustom bool
 
 // MockValidator / UseMockValidator: a validator the configuration can name
